@@ -43,15 +43,28 @@
 (* merely occur inside an excluded name (y next to an excluded y_total, LAG_y next to   *)
 (* LAG_y_total) or that contain one are judged.  `excluded` is the set of series the     *)
 (* loop skips; the judged set must be exactly the other series.                        *)
+(*                                                                                    *)
+(* Kinds.  Every series has the kind the parser gave its variable: "solved" (Parser.     *)
+(* Endogenous), "lagged" (Parser.Lagged), "decorative" (Parser.Decoration: with equation  *)
+(* reduction on, a variable nothing else refers to), "exogenous".  The acceptance test   *)
+(* and the installation make no difference between kinds: a decorative series is a      *)
+(* function of the solved ones, but its CLASS is its own (gap = debt - target: the same   *)
+(* absolute drift at a small level fails the relative test that the large stock passes). *)
 (* The operators JudgeBad / SteadyClass and the actions are the single source of truth *)
 (* for Steady_Trace.                                                                   *)
 EXTENDS Integers, Sequences, FiniteSets, TLC
 
 CONSTANTS
     Schemes,         \* the systems of the bounded instance: set of records
-                     \*   [id, names : sequence of names (one per series), grid : sequence, grid[i] = set of
-                     \*    classes series i may end in, excls : set of sets of names the user may exclude]
+                     \*   [id, names : sequence of names (one per series), kinds : sequence of kinds,
+                     \*    grid : sequence, grid[i] = set of classes series i may end in,
+                     \*    excls : set of sets of names the user may exclude]
     AllowMalformed,  \* BOOLEAN: also systems that are not well formed (Run may fail with any exception)
+    AsFound_DecorativeUntested,
+                     \* TRUE: a seeded variant: a decorative series is installed without being tested.
+    AsFound_DecorativeExcluded,
+                     \* TRUE: a seeded variant: decorative series are put on the exclusion list (neither tested
+                     \*       nor installed).  FALSE (both): kinds are treated alike (the code).
     AsFound_ExclusionBySubstring,
                      \* TRUE: a seeded variant of the code: the exclusion list is joined into one string, so a
                      \*       series is skipped as soon as its name occurs INSIDE an excluded name.
@@ -120,7 +133,9 @@ SkipsName(nm, opt) ==
     IF AsFound_ExclusionBySubstring
     THEN \E o \in (opt \cup {KName}) : IsSubstr(nm, o)     \* nm in ' '.join(list): names hold no blank
     ELSE IsExcludedName(nm, opt)
-SkippedSet(nms, opt) == { v \in 1..Len(nms) : SkipsName(nms[v], opt) }
+Kinds == {"solved", "lagged", "decorative", "exogenous"}
+SkippedSet(nms, kds, opt) ==
+    { v \in 1..Len(nms) : SkipsName(nms[v], opt) \/ (AsFound_DecorativeExcluded /\ kds[v] = "decorative") }
 
 Outer0  == [eq |-> 1, exo |-> 1, hor |-> 1]
 NoCopy  == [eq |-> 0, exo |-> 0, hor |-> 0]
@@ -131,6 +146,7 @@ VARIABLES
     phase,      \* "idle" | "copied" | "frozen" | "ran" | "judging" | "installed" | "rejected" | "raised"
     n,          \* number of series of the system
     names,      \* sequence (length n) of the names of the series
+    kinds,      \* sequence (length n) of their kinds
     option,     \* ParameterInitialSteadyStateExcludedVariables: a set of names
     excluded,   \* subset of 1..n: the series the acceptance loop skips
     sid,        \* id of the scheme the system was taken from (0: none)
@@ -143,14 +159,14 @@ VARIABLES
     outer,      \* snapshot of the solver that is being initialised
     inner       \* the same three identities of the copy the search works on
 
-sys  == << n, names, option, excluded, wf, sid >>      \* the system and the option: never change
+sys  == << n, names, kinds, option, excluded, wf, sid >>      \* the system and the option: never change
 vars == << phase, sys, runres, cls, judged, bad, exc, outer, inner >>
 
 Min(S) == CHOOSE x \in S : \A y \in S : x <= y
 
-Setup(nms, opt, w, id) ==
-    /\ phase = "idle" /\ n = Len(nms) /\ names = nms /\ option = opt /\ wf = w /\ sid = id
-    /\ excluded = SkippedSet(nms, opt)
+Setup(nms, kds, opt, w, id) ==
+    /\ phase = "idle" /\ n = Len(nms) /\ names = nms /\ kinds = kds /\ option = opt /\ wf = w /\ sid = id
+    /\ excluded = SkippedSet(nms, kds, opt)
     /\ runres = "none" /\ cls = << >> /\ judged = {} /\ bad = {} /\ exc = ""
     /\ outer = Outer0 /\ inner = NoCopy
 
@@ -158,7 +174,7 @@ MinId == Min({ s.id : s \in Schemes })
 Init == \E s \in Schemes, w \in (IF AllowMalformed THEN BOOLEAN ELSE {TRUE}) :
           \E ex \in s.excls :
             /\ (~w => (s.id = MinId /\ ex = {}))      \* one malformed system is enough
-            /\ Setup(s.names, OptionOf(ex), w, s.id)
+            /\ Setup(s.names, s.kinds, OptionOf(ex), w, s.id)
 
 Copy ==
     /\ phase = "idle"
@@ -192,7 +208,8 @@ Judge(v) ==
     /\ v = Min(ToJudge)                 \* the loop runs over the series in a fixed order
     /\ phase' = "judging"
     /\ judged' = judged \cup {v}
-    /\ bad' = IF JudgeBad(cls[v]) THEN bad \cup {v} ELSE bad
+    /\ bad' = IF JudgeBad(cls[v]) /\ ~(AsFound_DecorativeUntested /\ kinds[v] = "decorative")
+              THEN bad \cup {v} ELSE bad
     /\ UNCHANGED << sys, runres, cls, exc, outer, inner >>
 
 Install ==
@@ -262,7 +279,7 @@ C15_LeavesSolverUntouched == [][outer' = outer]_vars
 
 TypeOK ==
     /\ phase \in {"idle", "copied", "frozen", "ran", "judging", "installed", "rejected", "raised"}
-    /\ n = Len(names)
+    /\ n = Len(names) /\ n = Len(kinds) /\ \A i \in 1..n : kinds[i] \in Kinds
     /\ excluded \subseteq 1..n
     /\ runres \in {"none", "ok", "conv", "valerr", "other"}
     /\ (runres = "ok") => (Len(cls) = n /\ \A i \in 1..n : cls[i] \in AllClasses)
